@@ -734,6 +734,8 @@ class Interp2(Interp):
             return models.call_builtin_method(self, f, list(args), kwargs)
         if isinstance(f, Closure):
             return self.call_closure(f, args, kwargs)
+        if isinstance(f, RaiserVal):
+            raise PyRaise(ExcVal(args[0], tuple(args[1:])))
         hid = id(f)
         if hid in self.models:
             return self.models[hid](self, list(args), kwargs)
